@@ -62,5 +62,14 @@ PROPS = {
         "explanation": "Lean theorems: each coded constructor guard is equivalent to the documented domain; tie + oracle: real Ok/Err = model = independently written predicate on the complete finite domain, stored fields equal inputs, no panic.",
         "assumptions": ["usize::is_power_of_two modelled as 2^log2 x = x, x != 0 (std library, not verified)"],
     },
+    "C04": {
+        "level": "proof",
+        "theorems": T("C04_data_yz", "C04_data_round", "C04_data_final", "C04_context", "C04_nested"),
+        "leancheck": ["Model.Transcript"],
+        "scenarios": [{"name": "C04"}],
+        "rule": "lattice of configurations x every single-datum perturbation (context, initial state, H, each G_k, bit length, each commitment, each promise, commitment order, A, each L_j, each R_j, A1, B); distinct = (bits, aggregation, degree, datum kind)",
+        "explanation": "Lean theorems (event model): the history in front of each challenge is an injective function of every datum absorbed so far and of the caller history; histories are nested. Tie: the real prover and verifier event sequences at the merlin boundary equal the model's prescribed sequence label by label, byte by byte (post-challenge absorptions compared as a set). Oracle: two real runs differing in one datum differ in every later challenge; a proof is rejected under any perturbed datum.",
+        "assumptions": ["merlin/STROBE is a random oracle with injective framing of (label, length, message) (its documented contract)", "the instrumented merlin copy records exactly what is absorbed (STROBE code untouched)"],
+    },
 }
 NOT_CLAIMED = {}
